@@ -118,7 +118,9 @@ def judge_copy(pb, ext, before_flags, t0, after_flags, t1, src_triples):
             return "failed-chunk-not-zero-filled", "chunk %d" % i
         if fb == "+" and (fa != "+" or b1 != b0):
             return "previously-valid-chunk-touched", "chunk %d: flag %s -> %s" % (i, fb, fa)
-        if fa == "0" and b1 != b0:
+        if fa == "0" and b1 != b0 and (c.digest, c.clen, c.ulen) not in src_triples:
+            # (a chunk the copy attempted and gave up on - the source ended inside it - may be left missing with some of its
+            # own bytes overwritten: the statement only protects bytes OUTSIDE the extents of the chunks being filled)
             return "still-missing-chunk-modified", "chunk %d" % i
         if (c.digest, c.clen, c.ulen) not in src_triples and (fa != fb or b1 != b0):
             return "chunk-used-without-matching-source-entry", "chunk %d: flag %s -> %s, no source entry with its (digest, stored size, size)" % (i, fb, fa)
@@ -166,7 +168,7 @@ def work(arg):
         for tmark, seq in cases:
             job.append("case tmark=%s seq=%s" % (tmark, seq))
             flat.append((s1n, s1, s2n, s2, tmark, seq))
-    cs = core.drv("copy", "\n".join(job) + "\n", timeout=3000)
+    cs = core.drv("copy", "\n".join(job) + "\n", timeout=3000, env_extra={"VF_BLOB_MAX": "100000000"} if bname.startswith("big:") else None)
     res = {"n": 0, "tr": 0, "wrote": 0, "viol": [], "outcomes": set()}
     parsed = {}
 
@@ -334,6 +336,23 @@ def run(ctx):
             good, mut, content, ci, limit, Q = universe.twin_file(cfg, ctx.seed, at=at)
             mkt = marks(zckref.parse(good), False)
             cross.append(("twin:%s@%d" % (cfg.name(), at), good, [("twin:replaced", mut, "-", None, [(mkt[0], "c1"), (mkt[0], "c1,c1"), (mkt[0], "m1")])]))
+    # scale-dependent shapes: chunks larger than one and two 32 KiB copy buffers, exactly one buffer, one byte more; the source
+    # intact, damaged directly in front of / behind every buffer seam and chunk edge, and truncated there
+    for cfg in (Cfg(0, b"", 0, 3, 1), Cfg(2, b"", 0, 1, 1)):
+        bigf, _ = universe.big_file(cfg, ctx.seed)
+        pbig = zckref.parse(bigf)
+        mkb = marks(pbig, False)
+        groups = [("big:intact", bigf, "-", None, [(mkb[0], "c1"), (mkb[0], "c1,c1"), (mkb[len(mkb) // 3], "c1")])]
+        for n in universe.seam_offsets(pbig):
+            if pbig.header_len <= n < len(bigf):
+                x = bytearray(bigf); x[n] ^= 0x08
+                groups.append(("big:flip=%d" % n, bytes(x), "-", None, [(mkb[0], "c1")]))
+                groups.append(("big:trunc=%d" % n, bigf[:n], "-", None, [(mkb[0], "c1")]))
+        # a source that holds the big chunks in another order (other offsets, other seams relative to the file)
+        f2, h2, b2 = zckref.build_file(list(reversed(universe.big_file(cfg, ctx.seed)[1])), comp=cfg.comp, htype=cfg.fhash, ctype=cfg.chash, level=3)
+        groups.append(("big:reversed", f2, "-", None, [(mkb[0], "c1"), (mkb[0], "m1")]))
+        for ch in core.chunks(groups, 4):
+            cross.append(("big:%s" % cfg.name(), bigf, ch))
     ctx.bounds = {"words": "<= 3 letters over %s" % alpha, "configurations": [c.name() for c in cfgs], "pairs": npairs,
                   "target_markings": "every subset of chunks valid", "sequences": "c1 | c1,c1 | c1,c2 | c2,c1 | m1 | m1,m2"}
     ctx.rule = "case = (target marking, source with damage, call sequence); non-trivial = case in which a copy changed a chunk's marking"
